@@ -424,6 +424,7 @@ fn run(args: &Args, shapes: &[&'static vhc::ShapeInfo]) {
         skipped: 0,
     };
     let mut violations: Vec<String> = vec![];
+    let mut viol_by_key: HashMap<String, u32> = HashMap::new();
     let mut other_props: HashMap<&'static str, (u64, String)> = HashMap::new();
     let mut samples: Vec<String> = vec![];
     let mut progress = if out.is_empty() || replay {
@@ -578,7 +579,10 @@ fn run(args: &Args, shapes: &[&'static vhc::ShapeInfo]) {
         }
         for vi in &verdict.violations {
             if vi.prop == prop {
-                if violations.len() < 200 {
+                // at most 25 records per distinct key, so that frequent (e.g. known) findings cannot crowd out others
+                let kc = viol_by_key.entry(vi.key.clone()).or_insert(0u32);
+                *kc += 1;
+                if *kc <= 25 {
                     violations.push(format!(
                         "{{\"prop\":{},\"key\":{},\"msg\":{},\"idx\":{},\"seed\":{},\"tier\":{},\"small\":{},\"case\":{},\"mode\":{},\"picks\":{},\"script\":{}}}",
                         jstr(vi.prop),
